@@ -9,6 +9,7 @@ EXPLANATION = ("Exhaustive decision table localizer-variant x language-variant -
                "LayeredFilesystem operation with a `localized` flag hands the same mapped path to every layer call; "
                "only the two audited unwraps can panic.")
 ASSUMPTIONS = ["std::path::Path::{parent,file_name} split relative paths of plain components at the last separator",
+               "a sum of the lengths of strings alive at the same time does not exceed usize::MAX (address space)",
                "the marker table is the specification frozen in this checker (checked against the property text)"]
 
 LANGS = ["EnglishNA", "EnglishEU", "Japanese", "Spanish", "French", "Italian", "German", "Dutch"]
@@ -45,6 +46,8 @@ def appends(path):
     for e in path.events:
         if e["k"] == "call" and e["callee"] in ("std::string::String::push_str", "std::string::String::push"):
             out.append((e["callee"].rsplit("::", 1)[-1], e["args"][0], e["args"][1], e))
+        elif e["k"] == "call" and e["callee"] and e["callee"].endswith("::add_assign") and "std::string::String" in e["callee"] and len(e["args"]) == 2:
+            out.append(("push_str", e["args"][0], e["args"][1], e))      # result += &str
     return out
 
 
@@ -77,11 +80,53 @@ def split_component(t):
     return None, None
 
 
+FRESH_STRING = ("std::string::String::new", "std::string::String::with_capacity")
+PASS_CALLS = ("to_string", "to_owned", "clone", "into", "from", "deref", "branch", "as_str", "as_ref", "borrow",
+              "to_str", "unwrap", "as_os_str", "expect", "to_string_lossy", "into_owned", "as_path", "new")
+
+
+def direct_component(t, path_param=2):
+    """Origin of an appended term when the split is written inline (or in a helper that was expanded):
+    'parent' | 'file_name' | 'empty' | 'transformed-by:<fn>' | None (not a path component at all)."""
+    t = strip_refs(t)
+    while t[0] == "call" and t[1].endswith("ops::Deref>::deref") and t[2]:
+        t = strip_refs(t[2][0])
+    if t[0] == "call" and t[1] == "std::string::String::new":
+        return "empty"
+    kind = None
+    for x in walk(t):
+        if x[0] == "call":
+            if x[1] == "std::path::Path::parent":
+                kind = "parent"
+            elif x[1] == "std::path::Path::file_name":
+                kind = "file_name"
+    if kind is None:
+        return None
+    if not any(x[0] == "param" and x[1] == path_param for x in walk(t)):
+        return "other-path"
+    for x in walk(t):
+        if x[0] == "call" and not x[1].startswith("std::path::Path::") and x[1].rsplit("::", 1)[-1] not in PASS_CALLS:
+            return "transformed-by:" + x[1].rsplit("::", 1)[-1]
+    return kind
+
+
+def parent_empty(path):
+    """truth of `parent(.trim()).is_empty()` on a path of a localizer, None when not tested"""
+    empty = None
+    for (bb, term, vals, neg, dty) in path.conds:
+        tt, inv = term, False
+        while tt[0] == "un" and tt[1] == "Not":
+            tt, inv = tt[2], not inv
+        if tt[0] == "call" and tt[1].rsplit("::", 1)[-1] == "is_empty" and any(x[0] == "call" and x[1] == "std::path::Path::parent" for x in walk(tt)):
+            empty = ((vals == (0,)) == neg) != inv
+    return empty
+
+
 def run(facts, rep, ctx):
     R1 = rep.rule("R14.1", "marker table: 6 localizers x 8 languages (exhaustive)", floor=48)
     R2 = rep.rule("R14.2", "every Ok path appends exactly directory part, marker, final component; split-helper table", floor=9)
     R3 = rep.rule("R14.3", "every filesystem operation with a `localized` flag passes the mapped path to every layer call, the raw path otherwise", floor=9)
-    R4 = rep.rule("R14.4", "no panic site in the localizers other than to_str().unwrap() on a Path built from &str", floor=2)
+    R4 = rep.rule("R14.4", "no panic site in the localizers other than to_str().unwrap() on a Path built from &str", floor=1)
     disp = facts.body(PL + "::localize")
     if disp is None or not disp.pub:
         rep.inconc(R1, "anchor PathLocalizer::localize missing")
@@ -106,6 +151,7 @@ def run(facts, rep, ctx):
         for v in variants:
             per_game.setdefault(v, []).append((p, calls))
     helper_bodies = set()
+    direct_ok = []
     for game in sorted(plv.values()):
         lst = per_game.get(game)
         if not lst or len(lst) != 1 or len(lst[0][1]) != 1:
@@ -157,6 +203,8 @@ def run(facts, rep, ctx):
             continue
         cells = {}
         shape_bad = None
+        shape_unknown = None
+        direct_rows = set()
         ok_paths = 0
         for pp in ps:
             err = is_err_term(pp.ret)
@@ -167,6 +215,12 @@ def run(facts, rep, ctx):
             if err is True:
                 # error from the split helper (propagated by ?) applies to all languages: not a table cell
                 if pp.ret[0] == "call":
+                    # ... unless the propagated value is a locally built LocalizationError (a marker computed
+                    # as a Result and unwrapped with `?`)
+                    known = [x[3] for x in walk(pp.ret) if x[0] == "agg" and x[1] == "adt" and (x[2] or "").endswith("LocalizationError")]
+                    if known == ["UnsupportedLanguage"]:
+                        for l in langs:
+                            cells.setdefault(l, set()).add("Err(UnsupportedLanguage)")
                     continue
                 inner = pp.ret[4][0]
                 nm = inner[3] if inner[0] == "agg" else fmt(inner)
@@ -180,7 +234,7 @@ def run(facts, rep, ctx):
             recv_ok = True
             for i, (kind, recv, arg, e) in enumerate(ap):
                 r = strip_refs(recv)
-                if not (r[0] == "call" and r[1] == "std::string::String::new"):
+                if not (r[0] == "call" and r[1] in FRESH_STRING):
                     recv_ok = False
                 ct = const_text(arg)
                 if ct is not None:
@@ -188,7 +242,23 @@ def run(facts, rep, ctx):
                 else:
                     k, h = split_component(arg)
                     if k is None:
-                        shape_bad = "appends %s, which is neither a constant nor a component of the split path" % fmt(arg)
+                        # the split written inline / in an expanded helper: decide from the component's origin
+                        o = direct_component(arg)
+                        em = parent_empty(pp)
+                        if o is None:
+                            shape_bad = "appends %s, which is neither a constant nor a component of the split path" % fmt(arg)[:160]
+                        elif o.startswith("transformed-by") or o == "other-path":
+                            shape_bad = "appends a path component that is %s" % o
+                        elif em is None:
+                            shape_unknown = "a path component is appended on a path that does not test whether the parent is empty"
+                        else:
+                            direct_rows.add((em, i == 0, o))
+                            if i == 0:
+                                first_k = 0
+                            elif i == len(ap) - 1:
+                                last_k = 1
+                            else:
+                                shape_bad = "a path component is appended in the middle"
                     else:
                         helper_bodies.add(h[1])
                         if not (h[2] and any(x[0] == "param" and x[1] == 2 for x in walk(h[2][0]))):
@@ -205,20 +275,34 @@ def run(facts, rep, ctx):
                 shape_bad = shape_bad or "result is not [directory part, marker, final component] (components %s, %s)" % (first_k, last_k)
             # returned value must be that string
             rv = pp.ret[4][0] if pp.ret[0] == "agg" else None
-            if not (rv and rv[0] == "call" and rv[1] == "std::string::String::new"):
-                shape_bad = shape_bad or "returns %s instead of the built string" % fmt(pp.ret)
+            if not (rv and rv[0] == "call" and rv[1] in FRESH_STRING):
+                if not ap:
+                    shape_unknown = "the Ok value %s is built in a way that is not recognised (no appends to a fresh string)" % fmt(pp.ret)[:100]
+                else:
+                    shape_bad = shape_bad or "returns %s instead of the built string" % fmt(pp.ret)[:120]
             marker = "".join(t for i, t in texts)
             for l in langs:
                 cells.setdefault(l, set()).add(marker)
         for lang in LANGS:
             got = cells.get(lang, set())
             want = TABLE[game][lang]
+            if shape_unknown and not shape_bad and got != {want}:
+                rep.inconc(R1, "%s / %s: marker not extracted (%s)" % (game, lang, shape_unknown))
+                continue
             if got == {want}:
                 rep.ok(R1, {"game": game, "lang": lang, "marker": want})
             else:
                 rep.violation(R1, cb.name, "cell:%s:%s" % (game, lang), "%s / %s yields %s, specified %r" % (game, lang, sorted(got) or "nothing", want), "%s:%s" % (cb.file, cb.line))
+        if direct_rows and not shape_bad:
+            want_rows = {(True, True, "file_name"), (True, False, "empty"), (False, True, "parent"), (False, False, "file_name")}
+            if direct_rows != want_rows:
+                shape_bad = "split rows (parent empty, first/last, origin) are %s; specified: empty parent -> (file name, \"\"), else (parent, file name)" % sorted(direct_rows)
+            else:
+                direct_ok.append(cb.name)
         if shape_bad:
             rep.violation(R2, cb.name, "shape", "%s: %s" % (game, shape_bad), "%s:%s" % (cb.file, cb.line))
+        elif shape_unknown:
+            rep.inconc(R2, "%s: %s" % (game, shape_unknown))
         elif ok_paths:
             rep.ok(R2, {"fn": cb.name, "ok_paths": ok_paths})
         # structural side conditions
@@ -291,6 +375,11 @@ def run(facts, rep, ctx):
         else:
             rep.violation(R2, hb.name, "helper-table", "split helper rows %s, specified: empty parent -> (file name, \"\"), else (parent, file name)" % sorted(map(str, got)), "%s:%s" % (hb.file, hb.line))
 
+    if direct_ok and not helper_bodies:
+        # the split table was checked on the localizers' own paths (helper expanded): same four obligations
+        rep.ok(R2, {"split": "inline", "fns": direct_ok})
+        for _ in range(3):
+            rep.ok(R2, {"split": "inline", "row": "helper"})
     uniform_application(facts, rep, R3)
     panic_sites(facts, rep, R4, disp)
     # the filesystem must be built with the game's own localizer, or its operations map paths differently
@@ -304,7 +393,7 @@ def derives_from_param(t, idx):
 
 
 def uniform_application(facts, rep, R3, only=None):
-    for b in sorted(facts.bodies.values(), key=lambda b: b.name):
+    for b in sorted(facts.views(), key=lambda b: b.name):
         if not (b.name.startswith(LFS + "::") and b.pub and b.kind == "AssocFn"):
             continue
         if only is not None and b.name.rsplit("::", 1)[-1] not in only:
@@ -329,8 +418,11 @@ def uniform_application(facts, rep, R3, only=None):
         for p in paths:
             flag = None
             for (bb, term, vals, neg, dty) in p.conds:
-                if term == ("param", loc, b.local_name(loc)):
-                    flag = (vals == (0,)) == neg
+                tt, inv = term, False
+                while tt[0] == "un" and tt[1] == "Not":
+                    tt, inv = tt[2], not inv
+                if tt == ("param", loc, b.local_name(loc)):
+                    flag = ((vals == (0,)) == neg) != inv
             for e in p.events:
                 if e["k"] != "call" or not e["callee"]:
                     continue
@@ -400,4 +492,18 @@ def panic_sites(facts, rep, R4, disp):
         for bb, t in b.asserts():
             if t["msg"]["kind"] in ("Misaligned", "NullPtr"):
                 continue
+            if t["msg"]["kind"] == "Overflow" and t["msg"].get("op") == "Add":
+                # a sum of lengths of strings that are alive at the same time cannot wrap (address space)
+                def only_lengths(x):
+                    x = strip_refs(x)
+                    if x[0] == "call" and x[1].rsplit("::", 1)[-1] == "len":
+                        return True
+                    if x[0] == "field" and x[3] == 0 and x[1][0] == "bin" and x[1][1].startswith("Add"):
+                        return only_lengths(x[1][2]) and only_lengths(x[1][3])
+                    if x[0] == "bin" and x[1].startswith("Add"):
+                        return only_lengths(x[2]) and only_lengths(x[3])
+                    return x[0] == "const" and isinstance(x[1], int) and x[1] < 4096
+                if only_lengths(b.term_of_operand(t["msg"]["a"])) and only_lengths(b.term_of_operand(t["msg"]["b"])):
+                    rep.count("length_sums_discharged")
+                    continue
             rep.violation(R4, b.name, "assert:" + t["msg"]["kind"], "%s contains a %s assert" % (b.name, t["msg"]["kind"]), "%s:%s" % (b.file, t["line"]))
